@@ -153,9 +153,5 @@ Definition cgi_header_key (k : str) : Prop :=
   exists s, k = p_HTTP_ ++ s /\ s <> [] /\ Forall (fun c => cgi_char c = true) s /\
             s <> A "CONTENT_TYPE" /\ s <> A "CONTENT_LENGTH".
 
-(* the number of bytes a text encodes to, character by character *)
-Fixpoint text_width (cw : N -> nat) (t : str) : nat :=
-  match t with [] => O | c :: t' => (cw c + text_width cw t')%nat end.
-
 (* every character of t encodes to between 1 and 4 bytes *)
 Definition sane_widths (cw : N -> nat) (t : str) : Prop := Forall (fun c => (1 <= cw c <= 4)%nat) t.
